@@ -281,6 +281,7 @@ type c09Ent struct {
 	faults    []string // injected faults since the last successful Set
 	maybeGone bool     // a failed multi-delete may or may not have removed it
 	legacy    bool     // written through the fallback writer (v0 format)
+	aligned   bool     // value built by aligned() (knob k_align)
 }
 
 type c09Seq struct {
@@ -467,8 +468,10 @@ func (x *c09Seq) doSet(a core.Action, failAt int) {
 		maxLen = 2<<20 + 2
 	}
 	var data []byte
+	isAligned := false
 	if class%11 == 10 && x.sc.C("k_align") == 1 && failAt < 0 {
 		data = x.aligned(core.Mix(x.sc.Seed, uint64(cseed)), p)
+		isAligned = data != nil
 	}
 	if data == nil {
 		if class%11 == 10 {
@@ -549,7 +552,7 @@ func (x *c09Seq) doSet(a core.Action, failAt int) {
 		x.fail("set-error", "Set failed", "%s(id%d, %d bytes, comp %d) failed without an injected fault: %s", how, id, n, comp%c09NumComp, x.w.clean(err))
 		return
 	}
-	*e = c09Ent{exists: true, has: true, data: data, pass: x.w.cur, legacy: how == "legacy-write"}
+	*e = c09Ent{exists: true, has: true, data: data, pass: x.w.cur, legacy: how == "legacy-write", aligned: isAligned}
 	if st, err := os.Stat(x.w.path(idv)); err == nil && !e.legacy {
 		sz := st.Size()
 		nb := (sz - c09DataStart + c09EncBlock - 1) / c09EncBlock
@@ -648,6 +651,22 @@ func (x *c09Seq) doGet(id int) {
 		if fl == "" {
 			fl = ctx
 		}
+		// facts about the file for the known-finding matcher
+		attrs := map[string]bool{}
+		if st, err := os.Stat(x.w.path(x.ids[id])); err == nil && st.Size() == c09DataStart {
+			attrs["file_header_nonce_only"] = true
+		}
+		if e.aligned {
+			attrs["aligned_content"] = true
+		}
+		for _, f := range e.faults {
+			attrs["fault:"+f] = true
+		}
+		defer func() {
+			if x.v != nil && x.v.Oracle == "get-corrupt" {
+				x.v.Attrs = core.SortedKeys(attrs)
+			}
+		}()
 		x.fail("get-corrupt", ctx+" "+c, "after fault %s Get(id%d) returned %s and NO error; the stored value has %d bytes", fl, id, t, len(e.data))
 	}
 }
